@@ -82,6 +82,18 @@ func (r *c14Reader) Read(b []byte) (int, error) {
 }
 func (r *c14Reader) Close() error { return nil }
 
+// ReadByte makes the scripted body an io.ByteReader (like the bufio-backed bodies of some servers and test
+// doubles).  The BodyLimit reader does not offer ReadByte, so a handler never gets here through it; if a
+// version of it forwards ReadByte, the bytes handed out this way are logged like any other read.
+func (r *c14Reader) ReadByte() (byte, error) {
+	var b [1]byte
+	n, err := r.Read(b[:])
+	if n == 1 {
+		return b[0], nil // (an error that came with the byte shows at the next call: the script is then empty)
+	}
+	return 0, err
+}
+
 func c14ErrClass(err error) int {
 	switch {
 	case err == nil:
@@ -176,7 +188,17 @@ func c14Run(ci any) Result {
 				st.sub(st.rq.Nested)
 			}
 			buf := make([]byte, sz)
-			n, err := body.Read(buf)
+			var n int
+			var err error
+			if br, ok := body.(io.ByteReader); ok && sz == 1 {
+				// a byte-wise consumer (xml / flate decoders do this) uses ReadByte when the body offers it
+				var b byte
+				if b, err = br.ReadByte(); err == nil {
+					buf[0], n = b, 1
+				}
+			} else {
+				n, err = body.Read(buf)
+			}
 			st.seen = append(st.seen, c14Resp{append([]byte(nil), buf[:n]...), c14ErrClass(err)})
 			if err != nil {
 				if c14ErrClass(err) == 3 {
@@ -196,8 +218,18 @@ func c14Run(ci any) Result {
 		}
 		return ctx.NoContent(200)
 	}
-	e.POST("/", h)
-	if c.InnerStr != "" {
+	if c.Limit%3 == 1 {
+		// the application wrapped its handler once (mw(handler)) instead of handing the middleware to echo: the
+		// per-chain state of the middleware is then shared by all requests, also by overlapping (nested) ones
+		e = echo.New()
+		e.POST("/", middleware.BodyLimit(c.LimitStr)(h))
+		if c.InnerStr != "" {
+			e.POST("/inner", middleware.BodyLimit(c.LimitStr)(h), middleware.BodyLimit(c.InnerStr))
+		}
+	} else {
+		e.POST("/", h)
+	}
+	if c.InnerStr != "" && c.Limit%3 != 1 {
 		e.POST("/inner", h, middleware.BodyLimit(c.InnerStr))
 	}
 	var served []c14Served
@@ -418,8 +450,16 @@ func c14GenReq(r *rand.Rand, L int64) c14Req {
 	if r.Intn(6) == 0 {
 		nreads = r.Intn(4)
 	}
+	bytewise := r.Intn(8) == 0 // a byte-wise consumer reads the whole body one byte at a time
+	if bytewise {
+		nreads = int(n) + 3
+	}
 	for i := 0; i < nreads; i++ {
 		var sz int
+		if bytewise {
+			rq.Reads = append(rq.Reads, 1)
+			continue
+		}
 		switch r.Intn(5) {
 		case 0:
 			sz = 1
